@@ -61,6 +61,14 @@
 (* DEV_UnloadedVmNotAwaited : UnloadProgram likewise closes the channel    *)
 (*   and returns, so that a later load of the same program can start while *)
 (*   the unloaded VM is still inside a line.                               *)
+(* DEV_RegisteredBeforeOldVmStops : CompileAndRun registers the new        *)
+(*   version's metrics (Store.Add replaces the old metric and copies the   *)
+(*   label values it has SO FAR) before the lock, while the old VM still   *)
+(*   processes lines.  A datum the old VM creates afterwards (a scalar     *)
+(*   gauge's datum is created by its first write) belongs to a metric that *)
+(*   is no longer in the store: the effect of those lines is lost.         *)
+(*   Corrected design: the new metrics take over the data when the old VM  *)
+(*   has stopped (at the swap).                                            *)
 (***************************************************************************)
 EXTENDS Integers, Sequences, FiniteSets, Json, TLC
 
@@ -73,6 +81,9 @@ CONSTANTS NLines,               \* lines offered to the runtime: 1..NLines, in t
           Unloadable,           \* programs that may be unloaded
           DEV_OldVmNotAwaited,  \* the code as it is: CompileAndRun swaps without waiting for the old VM
           DEV_UnloadedVmNotAwaited, \* the code as it is: UnloadProgram returns without waiting for the VM
+          DEV_RegisteredBeforeOldVmStops, \* the code as it is: Store.Add of the new version's metrics
+                                \* (which takes over the data the old version has so far) runs before the
+                                \* old VM has stopped
           EofAnyTime,           \* TRUE (traces): the input may be closed after any line
           KeepHistory,          \* FALSE (traces): h keeps only the last action
           EmitCases             \* "none" | "terminal": print every finished behaviour as a CASE
@@ -89,10 +100,14 @@ VARIABLES nrecv,    \* lines taken from the input channel so far (= lines_total)
           rl,       \* the loader (LoadProgram is serialised by programErrorMu): [pc, p, ver]
           nloads,   \* loads started
           writes,   \* [Progs -> Seq(<<line, ver>>)] : writes applied to the program's gauge datum
+          store,    \* [Progs -> 0..MaxVer] : the version whose metric is in the metrics.Store (exported)
+          dat,      \* [Progs -> [Vers -> 0..MaxVer]] : the datum (named by the version that created it)
+                    \*   held by each version's metric, 0 = none yet
+          val,      \* [Progs -> [Vers -> <<line, ver>>]] : last write to each datum
           procd,    \* set of <<prog, line, ver>> : which version received which line
           due,      \* set of <<prog, line>> : programs loaded when the line was fanned out
           h         \* history of actions (emission)
-vars == <<nrecv, fan, handle, nver, vm, rl, nloads, writes, procd, due, h>>
+vars == <<nrecv, fan, handle, nver, vm, rl, nloads, writes, store, dat, val, procd, due, h>>
 
 -----------------------------------------------------------------------------
 (* lock state is a function of the control state *)
@@ -103,15 +118,24 @@ Busy(p, v) == vm[p][v].st \in {"atstart", "atend"}
 
 Ev(e, p, l, v) == [e |-> e, p |-> p, l |-> l, v |-> v]
 NoEvs == SubSeq(<<Ev("x", 0, 0, 0)>>, 1, 0)
-Gauge(w, p) == IF w[p] = <<>> THEN <<0, 0>> ELSE w[p][Len(w[p])]
+LastOf(w, p) == IF w[p] = <<>> THEN <<0, 0>> ELSE w[p][Len(w[p])]
+\* what an export of the store shows for program p's gauge
+ExportedOf(st, d, vl, p) == IF st[p] = 0 \/ d[p][st[p]] = 0 THEN <<0, 0>> ELSE vl[p][d[p][st[p]]]
+Exported(p) == ExportedOf(store, dat, val, p)
 \* compact description of the control state an action starts from (for transition coverage)
 From == [fan |-> fan.pc, rl |-> rl.pc, nrecv |-> nrecv, hd |-> handle,
          vm |-> [q \in Progs |-> [u \in Vers |-> vm[q][u].st]]]
-RecW(a, p, v, exp, w) ==
-  LET r == [a |-> a, p |-> p, v |-> v, exp |-> exp, from |-> From,
-            g |-> [q \in Progs |-> Gauge(w, q)]]
+RecG(a, p, v, exp, g) ==
+  LET r == [a |-> a, p |-> p, v |-> v, exp |-> exp, from |-> From, g |-> g]
   IN IF KeepHistory THEN Append(h, r) ELSE <<r>>
-Rec(a, p, v, exp) == RecW(a, p, v, exp, writes)
+Rec(a, p, v, exp) == RecG(a, p, v, exp, [q \in Progs |-> Exported(q)])
+\* Store.Add of version nv's metric: it replaces the exported one and takes over its datum, if any
+RegStore(p, nv) == [store EXCEPT ![p] = nv]
+RegDat(p, nv) == [dat EXCEPT ![p][nv] = IF store[p] # 0 THEN dat[p][store[p]] ELSE 0]
+Register(p, nv) == store' = RegStore(p, nv) /\ dat' = RegDat(p, nv)
+NoReg == UNCHANGED <<store, dat>>
+\* corrected design: the new metrics take over the old version's data at the swap
+SwapReg(p, nv) == IF DEV_RegisteredBeforeOldVmStops THEN NoReg ELSE Register(p, nv)
 NoVm == [st |-> "none", cur |-> 0, closed |-> FALSE]
 NewVm == [st |-> "ready", cur |-> 0, closed |-> FALSE]
 FanIdle == [pc |-> "idle", line |-> 0, todo |-> {}, cur |-> 0]
@@ -124,6 +148,9 @@ Init == /\ nrecv = 0
         /\ rl = [pc |-> "none", p |-> 0, ver |-> 0]
         /\ nloads = 0
         /\ writes = [p \in Progs |-> <<>>]
+        /\ store = [p \in Progs |-> IF p \in InitLoaded THEN 1 ELSE 0]
+        /\ dat = [p \in Progs |-> [v \in Vers |-> 0]]
+        /\ val = [p \in Progs |-> [v \in Vers |-> <<0, 0>>]]
         /\ procd = {}
         /\ due = {}
         /\ h = <<>>
@@ -142,7 +169,7 @@ FanRecv ==
      ELSE /\ fan' = [pc |-> "atrecv", line |-> nrecv + 1, todo |-> Loaded, cur |-> 0]
           /\ due' = due \cup {<<p, nrecv + 1>> : p \in Loaded}
           /\ h' = Rec("FanRecv", 0, 0, <<Ev("recv", 0, nrecv + 1, 0)>>)
-  /\ UNCHANGED <<handle, nver, vm, rl, nloads, writes, procd>>
+  /\ UNCHANGED <<handle, nver, vm, rl, nloads, writes, store, dat, val, procd>>
 
 \* unbuffered `handles[p].lines <- line` meets the VM's `range lines`
 Meet(p, v, l) ==
@@ -161,7 +188,7 @@ FanGo(p) ==
      ELSE /\ fan' = [fan EXCEPT !.pc = "sending", !.cur = p]     \* blocks in the send, RLock held
           /\ h' = Rec("FanGo", p, v, NoEvs)
           /\ UNCHANGED <<vm, procd>>
-  /\ UNCHANGED <<nrecv, handle, nver, rl, nloads, writes, due>>
+  /\ UNCHANGED <<nrecv, handle, nver, rl, nloads, writes, store, dat, val, due>>
 
 \* `close(handle.lines)`: an idle VM leaves its range loop at once, a busy one after its line
 CloseOf(f, p) == LET o == handle[p] IN
@@ -178,10 +205,11 @@ Acquire ==
   IF handle[p] # 0
   THEN /\ vm' = CloseOf(vm, p)
        /\ rl' = [rl EXCEPT !.pc = "atclosed"]
-       /\ UNCHANGED handle
+       /\ UNCHANGED handle /\ NoReg
   ELSE /\ vm' = [vm EXCEPT ![p][rl.ver] = NewVm]
        /\ handle' = [handle EXCEPT ![p] = rl.ver]
        /\ rl' = [rl EXCEPT !.pc = "atswapped"]
+       /\ SwapReg(p, rl.ver)
 AcquireEvs ==
   LET p == rl.p IN
   IF handle[p] # 0 THEN <<Ev("closed", p, 0, handle[p])>> \o ExitEvs(p)
@@ -194,9 +222,10 @@ AcquireU ==
   THEN /\ vm' = CloseOf(vm, p)
        /\ handle' = [handle EXCEPT ![p] = 0]
        /\ rl' = [rl EXCEPT !.pc = "atunload"]
+       /\ NoReg
   ELSE /\ vm' = CloseOf(vm, p)
        /\ rl' = [rl EXCEPT !.pc = "awaitingu"]
-       /\ UNCHANGED handle
+       /\ UNCHANGED handle /\ NoReg
 AcquireUEvs ==
   LET p == rl.p  o == handle[rl.p] IN
   IF DEV_UnloadedVmNotAwaited \/ ~Busy(p, o) THEN ExitEvs(p) \o <<Ev("unload", p, 0, 0)>> ELSE NoEvs
@@ -209,8 +238,8 @@ FanRelease ==
      THEN Acquire /\ h' = Rec("FanRelease", 0, 0, AcquireEvs)
      ELSE IF rl.pc = "wantu"
      THEN AcquireU /\ h' = Rec("FanRelease", 0, 0, AcquireUEvs)
-     ELSE UNCHANGED <<vm, rl, handle>> /\ h' = Rec("FanRelease", 0, 0, NoEvs)
-  /\ UNCHANGED <<nrecv, nver, nloads, writes, procd, due>>
+     ELSE UNCHANGED <<vm, rl, handle>> /\ NoReg /\ h' = Rec("FanRelease", 0, 0, NoEvs)
+  /\ UNCHANGED <<nrecv, nver, nloads, writes, val, procd, due>>
 
 \* `range lines` ends: "END OF LINE"; Lock; close and delete every handle; Unlock
 EofEvs == LET ps == {p \in Progs : ExitEvs(p) # NoEvs}
@@ -225,19 +254,24 @@ FanEof ==
   /\ vm' = [p \in Progs |-> CloseOf(vm, p)[p]]
   /\ handle' = [p \in Progs |-> 0]
   /\ h' = Rec("FanEof", 0, 0, EofEvs)
-  /\ UNCHANGED <<nrecv, nver, rl, nloads, writes, procd, due>>
+  /\ UNCHANGED <<nrecv, nver, rl, nloads, writes, store, dat, val, procd, due>>
 
 -----------------------------------------------------------------------------
 (* VM goroutine: vm.Run / ProcessLogLine *)
 
-\* ProcessLogLine executes the program: its visible effect is the write of the gauge datum,
-\* which old and new version share (Store.Add hands the old datum to the new metric)
+\* ProcessLogLine executes the program: its visible effect is the write of the gauge datum of
+\* this version's metric - created now if the metric has none (metric.GetDatum), otherwise the
+\* one Store.Add handed over from the previous version
 VmRun(p, v) ==
   /\ vm[p][v].st = "atstart"
+  /\ LET id == IF dat[p][v] = 0 THEN v ELSE dat[p][v] IN
+     /\ dat' = [dat EXCEPT ![p][v] = id]
+     /\ val' = [val EXCEPT ![p][id] = <<vm[p][v].cur, v>>]
   /\ writes' = [writes EXCEPT ![p] = Append(@, <<vm[p][v].cur, v>>)]
   /\ vm' = [vm EXCEPT ![p][v] = [@ EXCEPT !.st = "atend"]]
-  /\ h' = RecW("VmRun", p, v, <<Ev("end", p, vm[p][v].cur, v)>>, writes')
-  /\ UNCHANGED <<nrecv, fan, handle, nver, rl, nloads, procd, due>>
+  /\ h' = RecG("VmRun", p, v, <<Ev("end", p, vm[p][v].cur, v)>>,
+               [q \in Progs |-> ExportedOf(store, dat', val', q)])
+  /\ UNCHANGED <<nrecv, fan, handle, nver, rl, nloads, store, procd, due>>
 
 \* back to `for line := range lines`
 VmNext(p, v) ==
@@ -246,7 +280,7 @@ VmNext(p, v) ==
      THEN \* the fan-out is blocked sending to this VM
           /\ Meet(p, v, fan.line)
           /\ h' = Rec("VmNext", p, v, MeetEvs(p, v, fan.line))
-          /\ UNCHANGED <<handle, rl>>
+          /\ UNCHANGED <<handle, rl>> /\ NoReg
      ELSE IF vm[p][v].closed
      THEN \* channel closed: the VM exits; a loader awaiting it (corrected design) proceeds:
           \* `lines := make(chan); r.handles[name] = &vmHandle{..}; go v.Run(lines)`
@@ -256,25 +290,27 @@ VmNext(p, v) ==
                /\ handle' = [handle EXCEPT ![p] = rl.ver]
                /\ rl' = [rl EXCEPT !.pc = "atswapped"]
                /\ h' = Rec("VmNext", p, v, <<Ev("exit", p, 0, v), Ev("swapped", p, 0, rl.ver)>>)
+               /\ SwapReg(p, rl.ver)
                /\ UNCHANGED <<fan, procd>>
           ELSE IF rl.pc = "awaitingu" /\ rl.p = p
           THEN /\ vm' = [vm EXCEPT ![p][v] = [@ EXCEPT !.st = "exited", !.cur = 0]]
                /\ handle' = [handle EXCEPT ![p] = 0]
                /\ rl' = [rl EXCEPT !.pc = "atunload"]
                /\ h' = Rec("VmNext", p, v, <<Ev("exit", p, 0, v), Ev("unload", p, 0, 0)>>)
-               /\ UNCHANGED <<fan, procd>>
+               /\ UNCHANGED <<fan, procd>> /\ NoReg
           ELSE /\ vm' = [vm EXCEPT ![p][v] = [@ EXCEPT !.st = "exited", !.cur = 0]]
                /\ h' = Rec("VmNext", p, v, <<Ev("exit", p, 0, v)>>)
-               /\ UNCHANGED <<fan, procd, handle, rl>>
+               /\ UNCHANGED <<fan, procd, handle, rl>> /\ NoReg
      ELSE /\ vm' = [vm EXCEPT ![p][v] = [@ EXCEPT !.st = "ready", !.cur = 0]]
           /\ h' = Rec("VmNext", p, v, NoEvs)
-          /\ UNCHANGED <<fan, procd, handle, rl>>
-  /\ UNCHANGED <<nrecv, nver, nloads, writes, due>>
+          /\ UNCHANGED <<fan, procd, handle, rl>> /\ NoReg
+  /\ UNCHANGED <<nrecv, nver, nloads, writes, val, due>>
 
 -----------------------------------------------------------------------------
 (* Loader: LoadProgram -> CompileAndRun of a new or changed program; UnloadProgram *)
 
-\* hash differs; Compile; vm.New; Store.Add of every metric (the datum is shared); ProgLoads.Add
+\* hash differs; Compile; vm.New; Store.Add of every metric (DEV_RegisteredBeforeOldVmStops: the
+\* store now exports the new version's metric, holding the datum the old one has so far); ProgLoads.Add
 RlStart(p) ==
   /\ rl.pc \in {"none", "done"} /\ p \in Loadable /\ fan.pc # "eof"
   /\ nver[p] < MaxVer /\ nloads < MaxLoads
@@ -282,7 +318,8 @@ RlStart(p) ==
   /\ nver' = [nver EXCEPT ![p] = @ + 1]
   /\ nloads' = nloads + 1
   /\ h' = Rec("RlStart", p, nver[p] + 1, <<Ev("reg", p, 0, nver[p] + 1)>>)
-  /\ UNCHANGED <<nrecv, fan, handle, vm, writes, procd, due>>
+  /\ IF DEV_RegisteredBeforeOldVmStops THEN Register(p, nver[p] + 1) ELSE NoReg
+  /\ UNCHANGED <<nrecv, fan, handle, vm, writes, val, procd, due>>
 
 \* r.handleMu.Lock(): waits for the fan-out's RUnlock
 RlLock ==
@@ -290,10 +327,10 @@ RlLock ==
   /\ IF RHeld
      THEN /\ rl' = [rl EXCEPT !.pc = "wantw"]
           /\ h' = Rec("RlLock", rl.p, rl.ver, NoEvs)
-          /\ UNCHANGED <<vm, handle>>
+          /\ UNCHANGED <<vm, handle>> /\ NoReg
      ELSE /\ Acquire
           /\ h' = Rec("RlLock", rl.p, rl.ver, AcquireEvs)
-  /\ UNCHANGED <<nrecv, fan, nver, nloads, writes, procd, due>>
+  /\ UNCHANGED <<nrecv, fan, nver, nloads, writes, val, procd, due>>
 
 \* after close(handle.lines).  Corrected design: wait until the old VM has left its Run loop.
 \* The code (DEV_OldVmNotAwaited): install and start the new VM at once.
@@ -305,10 +342,11 @@ RlSwapGo ==
           /\ handle' = [handle EXCEPT ![p] = rl.ver]
           /\ rl' = [rl EXCEPT !.pc = "atswapped"]
           /\ h' = Rec("RlSwapGo", p, rl.ver, <<Ev("swapped", p, 0, rl.ver)>>)
+          /\ SwapReg(p, rl.ver)
      ELSE /\ rl' = [rl EXCEPT !.pc = "awaiting"]
           /\ h' = Rec("RlSwapGo", p, rl.ver, NoEvs)
-          /\ UNCHANGED <<vm, handle>>
-  /\ UNCHANGED <<nrecv, fan, nver, nloads, writes, procd, due>>
+          /\ UNCHANGED <<vm, handle>> /\ NoReg
+  /\ UNCHANGED <<nrecv, fan, nver, nloads, writes, val, procd, due>>
 
 \* deferred handleMu.Unlock(); a fan-out blocked in RLock() is granted the lock
 GrantReader ==
@@ -323,7 +361,7 @@ RlFinish ==
   /\ rl' = [rl EXCEPT !.pc = "done"]
   /\ GrantReader
   /\ h' = Rec("RlFinish", rl.p, rl.ver, GrantEvs)
-  /\ UNCHANGED <<nrecv, handle, nver, vm, nloads, writes, procd>>
+  /\ UNCHANGED <<nrecv, handle, nver, vm, nloads, writes, store, dat, val, procd>>
 
 \* UnloadProgram: Lock; close(handles[name].lines); delete(handles, name); ProgUnloads.Add; Unlock
 Unload(p) ==
@@ -339,14 +377,14 @@ Unload(p) ==
           /\ handle' = IF now THEN [handle EXCEPT ![p] = 0] ELSE handle
           /\ rl' = [u EXCEPT !.pc = IF now THEN "atunload" ELSE "awaitingu"]
           /\ h' = Rec("Unload", p, 0, IF now THEN ExitEvs(p) \o <<Ev("unload", p, 0, 0)>> ELSE NoEvs)
-  /\ UNCHANGED <<nrecv, fan, nver, nloads, writes, procd, due>>
+  /\ UNCHANGED <<nrecv, fan, nver, nloads, writes, store, dat, val, procd, due>>
 
 UnlFinish ==
   /\ rl.pc = "atunload"
   /\ rl' = [rl EXCEPT !.pc = "done"]
   /\ GrantReader
   /\ h' = Rec("UnlFinish", rl.p, 0, GrantEvs)
-  /\ UNCHANGED <<nrecv, handle, nver, vm, nloads, writes, procd>>
+  /\ UNCHANGED <<nrecv, handle, nver, vm, nloads, writes, store, dat, val, procd>>
 
 -----------------------------------------------------------------------------
 (* IDEAL layer: property C20 *)
@@ -369,7 +407,10 @@ Quiescent == /\ fan.pc \in {"idle", "eof"}
 LastWriteIsLastLine ==
   Quiescent => \A p \in Progs :
      LET ls == {t[2] : t \in {u \in due : u[1] = p}} IN
-     ls # {} => Gauge(writes, p)[1] = CHOOSE m \in ls : \A k \in ls : k <= m
+     ls # {} => Exported(p)[1] = CHOOSE m \in ls : \A k \in ls : k <= m
+\* no effect is lost: what the store exports is the last write that was applied
+Lost == \E p \in Progs : writes[p] # <<>> /\ Exported(p) # LastOf(writes, p)
+NoWriteLost == Quiescent => ~Lost
 \* two versions of one program never execute at the same time
 NoOverlap == \A p \in Progs : Cardinality({v \in Vers : Busy(p, v)}) <= 1
 
@@ -399,7 +440,9 @@ Emit == ((EmitCases = "terminal" /\ Terminal) \/ (EmitCases = "prefix" /\ h # <<
                                    terminal |-> Terminal,
                                    procd |-> procd,
                                    writes |-> writes,
-                                   dev |-> <<DEV_OldVmNotAwaited, DEV_UnloadedVmNotAwaited>>,
+                                   dev |-> <<DEV_OldVmNotAwaited, DEV_UnloadedVmNotAwaited,
+                                             DEV_RegisteredBeforeOldVmStops>>,
+                                   lost |-> Lost,
                                    inorder |-> WritesInArrivalOrder,
                                    lastok |-> LastWriteIsLastLine])>>)
 
@@ -412,7 +455,7 @@ Next == \/ Step
         \/ (Terminal /\ UNCHANGED vars)        \* so that TLC's deadlock check means "stuck before the end"
 Spec == Init /\ [][Next]_vars
 
-View == <<nrecv, fan, handle, nver, vm, rl, nloads, writes, procd, due>>
+View == <<nrecv, fan, handle, nver, vm, rl, nloads, writes, store, dat, val, procd, due>>
 \* one representative path per (source control state, action, target state)
 View2 == <<View, IF h = <<>> THEN 0 ELSE h[Len(h)]>>
 =============================================================================
